@@ -1,6 +1,7 @@
 package main
 
 import (
+	"sort"
 	"fmt"
 	"go/ast"
 	"go/token"
@@ -309,13 +310,13 @@ func (c *Ctx) havocMods(st *State, ms *modSet) {
 	if ms.all {
 		c.heapHavocAll(st)
 	}
-	for k, as := range ms.keys {
-		if as != "" {
+	for _, k := range sortedKeys(ms.keys) {
+		if as := ms.keys[k]; as != "" {
 			heapSorts[k] = as
 		}
 		c.heapHavocKey(st, k)
 	}
-	for o := range ms.vars {
+	for _, o := range sortedVars(ms.vars) {
 		if _, isCell := st.cells[o]; isCell {
 			continue
 		}
@@ -853,4 +854,20 @@ func (c *Ctx) condModStaticallyFalse(item string, pnames []string) bool {
 		return false
 	}
 	return !types.Identical(tv.Type, wt)
+}
+
+// sortedVars: deterministic order (source position) for iteration over variable sets, so that fresh names — and
+// with them the text of the SMT queries — do not depend on Go's map iteration order.
+func sortedVars(m map[*types.Var]bool) []*types.Var {
+	out := make([]*types.Var, 0, len(m))
+	for o := range m {
+		out = append(out, o)
+	}
+	sort.Slice(out, func(i, j int) bool {
+		if out[i].Pos() != out[j].Pos() {
+			return out[i].Pos() < out[j].Pos()
+		}
+		return out[i].Name() < out[j].Name()
+	})
+	return out
 }
